@@ -458,3 +458,11 @@ Qed.
 
 Lemma tochan_unwrapped_unbounded : forall bound, exists remaining, tochan_steps false remaining > bound.
 Proof. intro b. exists b. rewrite tochan_unwrapped_steps. lia. Qed.
+
+(* a panic of the source list: nothing is stranded when it is recovered into an error element; without that every
+   waiting goroutine is stranded exactly if the source panics *)
+Lemma stranded_recovered : forall w evs, stranded true w evs = 0.
+Proof. intros w evs. induction evs as [|e r IH]; [reflexivity|]. destruct e; cbn; [exact IH|reflexivity]. Qed.
+
+Lemma stranded_unrecovered : forall w evs, stranded false w evs = if existsb (fun e => match e with EvPanic => true | EvItem => false end) evs then w else 0.
+Proof. intros w evs. induction evs as [|e r IH]; [reflexivity|]. destruct e; cbn; [exact IH|reflexivity]. Qed.
